@@ -194,9 +194,11 @@ def tcp_round(port, stream, cut, how):
             obs["not_connected_after_close"] = proto.connection_state.current.value == 0
             sock.close()
             proto.enable()
+        # NOT CONNECTED is reported before the disconnect handling has cleared the buffer and restarted the listener: give it time
+        wait(lambda: len(proto._receive_buffer) == 0, 3.0)
         obs["buffer_after_close"] = len(proto._receive_buffer)
         sock2 = client()
-        obs["reconnected"] = wait(lambda: proto.connection_state.current.value == 2)
+        obs["reconnected"] = wait(lambda: proto.connection_state.current.value == 2, 10.0)
         sock2.sendall(frame_of(1, 0x52))
         got = recv_frames(sock2, 1)
         obs["reselected"] = [(b.header.s_type.value, b.header.system) for b in got] == [(2, 0x52)] and wait(lambda: proto.connection_state.current.value == 3)
@@ -210,6 +212,53 @@ def tcp_round(port, stream, cut, how):
 
 
 HEADER = "From SG Require Import Base.Prelude Base.Kinds Spec.E37Session Model.Endpoint Run.C09Run.\nOpen Scope Z_scope.\n"
+
+
+def disable_while_peer_connects_round():
+    """The application disables the passive endpoint at the moment a peer connects: disable() sees the listener thread alive, the
+    thread accepts the connection and ends, then disable() asks it to stop.  (The interleaving is forced by wrapping the thread
+    object's is_alive(); everything else is the real TcpServerConnection on a loopback socket.)  disable() must return."""
+    import secsgem.common.tcp_connection
+    secsgem.common.tcp_connection.TcpConnection.select_timeout = 0.02
+    port = common.free_port()
+    settings = secsgem.hsms.HsmsSettings(address="127.0.0.1", port=port, connect_mode=secsgem.hsms.HsmsConnectMode.PASSIVE, device_id=0)
+    proto = secsgem.hsms.HsmsProtocol(settings)
+    conn = proto._connection
+    obs = {}
+    proto.enable()
+    deadline = time.monotonic() + 5
+    while time.monotonic() < deadline and not (getattr(conn, "_server_thread", None) and conn._server_thread.is_alive() and conn._server_sock):
+        time.sleep(0.01)
+    time.sleep(0.1)
+    real_thread = conn._server_thread
+    state = {}
+
+    class Racy:
+        def is_alive(self):
+            if "client" in state:
+                return real_thread.is_alive()
+            try:
+                state["client"] = socket.create_connection(("127.0.0.1", port), timeout=2)   # the peer connects right after the check ...
+            except OSError as exc:
+                state["client"] = None
+                state["error"] = repr(exc)
+            real_thread.join(2)                                                               # ... the listener accepts it and ends
+            return True
+
+        def __getattr__(self, name):
+            return getattr(real_thread, name)
+
+    conn._server_thread = Racy()
+    try:
+        common.with_deadline(proto.disable, 10.0)
+        obs["disable_returned"] = True
+    except common.Wedged:
+        obs["disable_returned"] = False
+    obs["peer_connected_in_between"] = state.get("client") is not None
+    obs["not_connected"] = proto.connection_state.current.value == 0
+    if state.get("client"):
+        state["client"].close()
+    return obs
 
 
 def pending_sends_round(n_senders, cut_stream, cut):
@@ -411,6 +460,10 @@ def run(tier, replay=None):
                               "stream_hex": [f.hex() for f in pst], **obs}, True, tag="active")
             break
     common.report_wedged(report, awedged, proof)
+    # disable() at the moment a peer connects
+    race_obs = common.guarded(disable_while_peer_connects_round, "disable() while a peer connects (listener thread ends between disable()'s check and its stop request)", awedged, 60.0)
+    if race_obs is not None and not (race_obs["disable_returned"] and race_obs["not_connected"]):
+        report.violation({"kind": "counterexample", "what": "disable() did not return / the endpoint did not end NOT CONNECTED when a peer connected while it was being disabled", **race_obs}, True, tag="disablerace")
     # the same over real sockets (TcpServerConnection on the loopback interface)
     tcp_obs = []
     st = streams(rnd)[0]
@@ -420,7 +473,7 @@ def run(tier, replay=None):
     twedged = []
     for k, cut in enumerate(cuts):
         how = "peer_close" if k % 2 == 0 else "disable"
-        obs = common.guarded(lambda cut=cut, how=how, k=k: tcp_round(base + k, st, cut, how), f"TCP loopback: stream cut at byte {cut}, ended by {how}", twedged, 60.0)
+        obs = common.guarded(lambda cut=cut, how=how, k=k: tcp_round(common.free_port(), st, cut, how), f"TCP loopback: stream cut at byte {cut}, ended by {how}", twedged, 60.0)
         if obs is None:
             continue
         tcp_obs.append(obs)
@@ -451,6 +504,7 @@ def run(tier, replay=None):
     cov["correspondence"] = {k: v for k, v in stats.items() if k != "eval_errors"}
     cov["pending_sends_rounds"] = pending_obs
     cov["active_reconnect_rounds"] = active_obs
+    cov["disable_while_peer_connects"] = race_obs
     cov["tcp_rounds"] = {"count": len(tcp_obs), "max_disable_seconds": max([o.get("disable_seconds", 0) for o in tcp_obs] + [o.get("final_disable_seconds", 0) for o in tcp_obs] + [0])}
     cov["distribution"] = {"streams": dict(Counter(c[0] for c in cases)), "ended_by": dict(Counter(c[4] for c in cases)), "selected": dict(Counter(str(c[3]) for c in cases))}
     cov["samples"] = [f"stream {c[0]} cut {c[2]} selected={c[3]} {c[4]}" for c in cases[:: max(1, len(cases) // 6)][:6]]
